@@ -519,12 +519,12 @@ func (fr *Frame) evalIndex(sc *Scope, x *EIndex) Val {
 	switch u := b.T.Underlying().(type) {
 	case *types.Slice:
 		i := fr.toIdx(iv)
-		v := fr.loadElem(sc.st, b.Obj(), BVOp("bvadd", b.Off(), i), u.Elem(), 0, -1, u.Elem())
+		v := fr.loadElem(sc.st, b.Obj(), addIdx(b.Off(), i), u.Elem(), 0, -1, u.Elem())
 		return v
 	case *types.Basic:
 		if isString(b.T) {
 			i := fr.toIdx(iv)
-			return fr.loadElem(sc.st, b.Obj(), BVOp("bvadd", b.Off(), i), types.Typ[types.Uint8], 0, -1, types.Typ[types.Uint8])
+			return fr.loadElem(sc.st, b.Obj(), addIdx(b.Off(), i), types.Typ[types.Uint8], 0, -1, types.Typ[types.Uint8])
 		}
 	case *types.Array:
 		i := fr.toIdx(iv)
@@ -681,7 +681,7 @@ func (fr *Frame) evalCall(sc *Scope, x *ECall) Val {
 			}
 		}
 		if name == "forall" {
-			return scalar(boolT, Forall([]Term{bv}, Implies(rng, body), pats...))
+			return scalar(boolT, forallRange(bv, lo, hi, body, pats))
 		}
 		return scalar(boolT, Exists([]Term{bv}, And(rng, body)))
 	case "forallref":
@@ -833,16 +833,23 @@ func (fr *Frame) byteAt(sc *Scope, b Val, i Term) Term {
 	return fr.loadElem(sc.st, b.Obj(), BVOp("bvadd", b.Off(), i), types.Typ[types.Uint8], 0, -1, types.Typ[types.Uint8]).Term()
 }
 
+// byteAtBase reads b[base+k] with the index built as (off+base)+k.
+func (fr *Frame) byteAtBase(sc *Scope, b Val, base, k Term) Term {
+	if at, ok := ptrToArray(b); ok {
+		return fr.loadElem(sc.st, b.Term(), BVOp("bvadd", base, k), at.Elem(), 0, -1, at.Elem()).Term()
+	}
+	if _, ok := b.T.Underlying().(*types.Array); ok {
+		return Select(b.C[0], BVOp("bvadd", base, k))
+	}
+	return fr.loadElem(sc.st, b.Obj(), BVOp("bvadd", BVOp("bvadd", b.Off(), base), k), types.Typ[types.Uint8], 0, -1, types.Typ[types.Uint8]).Term()
+}
+
 func (fr *Frame) bytesEq(sc *Scope, a Val, ai Term, b Val, bi Term, n Term) Term {
 	fr.top.nbound++
 	k := Term{fmt.Sprintf("k!q%d", fr.top.nbound), SBV64}
-	x := fr.byteAt(sc, a, BVOp("bvadd", ai, k))
-	// b may be evaluated in an old state: byteAt uses sc.st; callers wrap old(b) themselves
-	y := fr.byteAt(sc, b, BVOp("bvadd", bi, k))
-	if bo, ok := sc.vars["\x00oldb"]; ok {
-		_ = bo
-	}
-	return Forall([]Term{k}, Implies(And(BVCmp("bvsle", BV(0, 64), k), BVCmp("bvslt", k, n)), Eq(x, y)))
+	x := fr.byteAtBase(sc, a, ai, k)
+	y := fr.byteAtBase(sc, b, bi, k)
+	return forallRange(k, BV(0, 64), n, Eq(x, y), nil)
 }
 
 func (fr *Frame) applySpec(sc *Scope, sf *SpecFunc, x *ECall) Val {
@@ -896,4 +903,18 @@ func mustParseType(s string) Expr {
 		cfail("bad type %q", s)
 	}
 	return e
+}
+
+// addIdx builds base+i, re-associating (base + (a + b)) to ((base + a) + b) so that a
+// bound variable in the last position can be normalised away (see normaliseQuant).
+func addIdx(base, i Term) Term {
+	if strings.HasPrefix(i.S, "(bvadd ") {
+		t := parseSx(i.S)
+		if len(t.kids) == 3 {
+			a := Term{t.kids[1].String(), i.Sort}
+			b := Term{t.kids[2].String(), i.Sort}
+			return BVOp("bvadd", BVOp("bvadd", base, a), b)
+		}
+	}
+	return BVOp("bvadd", base, i)
 }
